@@ -34,13 +34,21 @@ def run(tier, seed):
     for act in ('Open', 'Write', 'Close', 'Rename', 'Fail', 'Crash'):
         if e1['coverage'].get(act, {}).get('distinct', 0) == 0:
             raise vlib.Broken(f'ChkpntE1 vacuous: {act} never taken')
+    # the all-users checkpoint (chkpnta) has a model of its own; its two as-found variants must violate the contract (discrimination)
+    e1a = vlib.model_check('ChkpntAllE1.tla', 'ChkpntAllE1.cfg' if tier == 'thorough' else 'ChkpntAllE1_quick.cfg', wd, workers=8)
+    if not e1a['ok']:
+        raise vlib.Broken('ChkpntAllE1: the all-users checkpoint model violates the disk contract:\n' + e1a['out'][-2500:])
+    for cfg in ('ChkpntAllE1_asfound.cfg', 'ChkpntAllE1_nosweep.cfg'):
+        if vlib.model_check('ChkpntAllE1.tla', cfg, wd, workers=4)['ok']:
+            raise vlib.Broken(f'ChkpntAll.tla does not discriminate: {cfg} satisfies the contract')
     spool = f'{wd}/spool'; os.makedirs(spool, exist_ok=True)
     nh = 150 if tier == 'thorough' else 14
     hist = []
     for k in range(nh):
         kind = k % 4
         if kind == 3:   # 17 users: the dirty array overflows and chkpnta() writes every user that owns a task
-            users = tuple(2000 + i for i in range(17)); h = daemon.chk_history(rnd, users=users, uids=tuple('j%d' % i for i in range(12)), nreq=22, every_user=True)
+            users = tuple(2000 + i for i in range(17))
+            h = daemon.chk_history(rnd, users=users, uids=tuple('j%d' % i for i in range(12)), nreq=22, every_user=True) if (k // 4) % 2 == 0 else daemon.chk_history_all(rnd)
         elif kind == 2: # fat tasks: several 4 KiB flushes per file
             h = daemon.chk_history(rnd, fat=True, nreq=6)
         else:
@@ -85,7 +93,7 @@ def run(tier, seed):
            'rule': 'one case = (request history, k, mode): the history runs on the real daemon code with its checkpoint system calls (openat/write/close/renameat/unlinkat of .echsq_<uid>.ics) interposed; at the k-th such call the process dies (mode c), or the call fails once with EIO (f), or a write is short (s); then a fresh daemon process loads the spool. Every call of every checkpoint of the history is a fault point (quick: at most 40 per history). Histories: 2 users, fat tasks forcing several 4 KiB flushes, and 17 users overflowing the 16-slot dirty array. Non-trivial = a fault was injected',
            'samples': [{'history': hist[0][0][:3], 'k': jobs[1][1], 'mode': jobs[1][2], 'files': recs[1]['files'], 'armed': recs[1]['armed']}],
            'histories': nh, 'crash_points': ncrash, 'failing_calls': nfail, 'mismatching_experiments': v['nbad'],
-           'states': e1['states'], 'transitions': e1['transitions'], 'traces_validated_against_impl': len(recs),
+           'states': e1['states'] + e1a['states'], 'transitions': e1['transitions'] + e1a['transitions'], 'all_users_checkpoint_model': {'states': e1a['states'], 'actions': e1a['coverage']}, 'traces_validated_against_impl': len(recs),
            'e1': 'ChkpntE1: Open(O_TRUNC)/Write*/Close/Rename per dirty user with Crash and a single Fail at every step; 2 users, 3 tasks, 4 changes, 3 writes per file: live file never torn, reload = a finished checkpoint, fault-free checkpoint saves all',
            'e1_actions': e1['coverage'], 'exhaustive': tier == 'thorough'}
     return vlib.finish(PID, tier, seed, 'fault_enumeration', cov, t0, unlisted, listed,
